@@ -117,6 +117,16 @@ func keysOfType(t types.Type) []string {
 // copyRange: dst region slots [dstOff, dstOff+count) := src snapshot slots [srcOff, ...), for the given heap keys.
 func (tr *Tr) copyRange(st *State, keys []string, dstReg, dstOff *Term, srcInner map[string]*Term, srcOff, count *Term) {
 	f := tr.f
+	if count.Op != "bv" {
+		// count = n * m with n known constant from an assumed postcondition
+		if c := tr.constOf(count); c != nil {
+			count = c
+		} else if count.Op == "bvmul" && count.Args[1].Op == "bv" {
+			if c := tr.constOf(count.Args[0]); c != nil {
+				count = f.Mul(c, count.Args[1])
+			}
+		}
+	}
 	if count.Op == "bv" && count.Val.IsInt64() && count.Val.Int64() <= 96 {
 		n := count.Val.Int64()
 		for _, k := range keys {
@@ -431,9 +441,20 @@ func (tr *Tr) appendOp(fr *Frame, site ssa.Instruction, c *ssa.CallCommon) Val {
 		srcInner = tr.snapshot(fr.st, keys, e[0])
 		soff = e[1]
 	}
+	if c := tr.constOf(n); c != nil {
+		n = c
+	}
 	newLen := f.Add(s[2], n)
 	tr.oblige("alloc", site.Pos(), f.SLe(newLen, tr.maxLen), "append: length out of range")
 	inplace := f.SLe(newLen, s[3])
+	if !inplace.IsTrue() && !inplace.IsFalse() {
+		// decide the capacity question now when the path condition settles it (keeps the heap a single store chain)
+		if tr.provableNow(inplace) {
+			inplace = f.True()
+		} else if tr.provableNow(f.Not(inplace)) {
+			inplace = f.False()
+		}
+	}
 	// in-place branch
 	var stIn, stNew *State
 	if !inplace.IsFalse() {
